@@ -1,4 +1,6 @@
 import TongoGen.TlbTypes
+import TongoGen.TldTypes
+import TongoProofs.C08
 import TongoProofs.Lemmas.TlbDecTotal
 /-! Property C08, instantiated on the REGENERATED type environment (translator X1, `TongoGen/TlbTypes.lean`): the
 productivity obligation is re-decided on every run; if a shipped type becomes self-recursive without consuming input
@@ -27,5 +29,66 @@ theorem generated_consts : (constsOf envList genRanks).D ≤ 40 ∧ (constsOf en
 
 /-- non-vacuity: tlb.Message on an empty cell needs a concrete, small amount of fuel and then fails with a genuine error -/
 example : fuelOut (decode env 2000 desc_tlb_Message (Slice.ofCell (.mk 0 0 [] []))) = false := by decide +kernel
+
+/-! ### TL: the bounds instantiated on every regenerated liteclient descriptor (translator TldTypes) -/
+
+/-- every descriptor the decoder can be asked for: the table of types and the request dispatch table -/
+def liteapiTys : List TlD.Ty := TongoGen.TldTypes.all.map (·.2) ++ TongoGen.TldTypes.requests.map (·.2)
+
+/-- the uniform constants of the shipped TL descriptors: the worst `allocA`, `allocB`, `stepK`, `stepS` over the
+regenerated table (recomputed on every run; their present values are `liteapi_consts_values`) -/
+def liteapiA : Nat := liteapiTys.foldl (fun m t => max m t.allocA) 0
+def liteapiB : Nat := liteapiTys.foldl (fun m t => max m t.allocB) 0
+def liteapiK : Nat := liteapiTys.foldl (fun m t => max m t.stepK) 0
+def liteapiS : Nat := liteapiTys.foldl (fun m t => max m t.stepS) 0
+
+set_option maxRecDepth 100000 in
+/-- OBLIGATION (re-decided on every run): the constants of every shipped descriptor are below the uniform ones -/
+theorem liteapi_consts : liteapiTys.all (fun t =>
+    t.wf && decide (t.allocA ≤ liteapiA) && decide (t.allocB ≤ liteapiB) &&
+    decide (t.stepK ≤ liteapiK) && decide (t.stepS ≤ liteapiS)) = true := by decide +kernel
+
+set_option maxRecDepth 100000 in
+/-- the present values of the constants and non-vacuity of the table (this one is about the CURRENT schema: it changes
+when liteclient/generated.go gains a larger type) -/
+theorem liteapi_consts_values : liteapiA = 1186 ∧ liteapiB = 160336 ∧ liteapiK = 115 ∧ liteapiS = 123 ∧
+    TongoGen.TldTypes.all.length = 73 ∧ TongoGen.TldTypes.requests.length = 29 := by decide +kernel
+
+/-- `tl_decode_total`, `tl_decode_alloc` and `tl_decode_steps` INSTANTIATED: for every liteclient type with a generated
+`UnmarshalTL` (descriptor regenerated from liteclient/generated.go on every run) and every byte string, the repaired
+decoder does not panic, allocates at most `liteapiA·|bs| + liteapiB` bytes (now `1186·|bs| + 160336`) and takes at most
+`liteapiK·|bs| + liteapiS` steps (now `115·|bs| + 123`). The
+well-formedness hypothesis of the general theorems is discharged here by `decide` on the regenerated table (and once
+more per descriptor in `TongoGen.TldTypes.wf_<Name>`). -/
+theorem liteapi_decode_bounded (ty : TlD.Ty) (hm : ty ∈ liteapiTys) (bs : List UInt8) :
+    (TlD.run TlD.Cfg.fixed ty bs).1.isPanic = false ∧
+    (TlD.run TlD.Cfg.fixed ty bs).2.alloc ≤ liteapiA * bs.length + liteapiB ∧
+    (TlD.run TlD.Cfg.fixed ty bs).2.steps ≤ liteapiK * bs.length + liteapiS := by
+  have h := List.all_eq_true.mp liteapi_consts ty hm
+  simp only [Bool.and_eq_true, decide_eq_true_eq] at h
+  obtain ⟨⟨⟨⟨hwf, hA⟩, hB⟩, hK⟩, hS⟩ := h
+  refine ⟨tl_decode_total ty bs, ?_, ?_⟩
+  · have := tl_decode_alloc ty hwf bs
+    have := Nat.mul_le_mul_right bs.length hA
+    omega
+  · have := tl_decode_steps ty hwf bs
+    have := Nat.mul_le_mul_right bs.length hK
+    omega
+
+/-- by name: every liteclient type with a generated `UnmarshalTL` -/
+theorem liteapi_type_decode_bounded (name : String) (ty : TlD.Ty) (hm : (name, ty) ∈ TongoGen.TldTypes.all)
+    (bs : List UInt8) :
+    (TlD.run TlD.Cfg.fixed ty bs).1.isPanic = false ∧
+    (TlD.run TlD.Cfg.fixed ty bs).2.alloc ≤ liteapiA * bs.length + liteapiB ∧
+    (TlD.run TlD.Cfg.fixed ty bs).2.steps ≤ liteapiK * bs.length + liteapiS :=
+  liteapi_decode_bounded ty (List.mem_append_left _ (List.mem_map.mpr ⟨_, hm, rfl⟩)) bs
+
+/-- the server side: whatever request tag `liteapiRequestDecoder` dispatches on -/
+theorem liteapi_request_decode_bounded (tag : Nat) (ty : TlD.Ty) (hm : (tag, ty) ∈ TongoGen.TldTypes.requests)
+    (bs : List UInt8) :
+    (TlD.run TlD.Cfg.fixed ty bs).1.isPanic = false ∧
+    (TlD.run TlD.Cfg.fixed ty bs).2.alloc ≤ liteapiA * bs.length + liteapiB ∧
+    (TlD.run TlD.Cfg.fixed ty bs).2.steps ≤ liteapiK * bs.length + liteapiS :=
+  liteapi_decode_bounded ty (List.mem_append_right _ (List.mem_map.mpr ⟨_, hm, rfl⟩)) bs
 
 end Tongo.C08
